@@ -8,6 +8,14 @@ package waddrmgr
 // write (applied to all such functions of the package, including closures) ----
 //@ auto C10 modifies wfault
 //@   ensures fault_reported: wfault && !old(wfault) ==> err != nil
+//@   ensures memory_after_disk: err != nil ==> (forall o Int :: {select(@H(accountInfo.acctName), o)} oldalloc(o) ==> select(@H(accountInfo.acctName), o) == select(old(@H(accountInfo.acctName)), o))
+//@       && (forall o Int :: {select(@H(accountInfo.nextExternalIndex), o)} oldalloc(o) ==> select(@H(accountInfo.nextExternalIndex), o) == select(old(@H(accountInfo.nextExternalIndex)), o))
+//@       && (forall o Int :: {select(@H(accountInfo.nextInternalIndex), o)} oldalloc(o) ==> select(@H(accountInfo.nextInternalIndex), o) == select(old(@H(accountInfo.nextInternalIndex)), o))
+//@       && (forall o Int :: {select(@H(accountInfo.lastExternalAddr), o)} oldalloc(o) ==> select(@H(accountInfo.lastExternalAddr), o) == select(old(@H(accountInfo.lastExternalAddr)), o))
+//@       && (forall o Int :: {select(@H(accountInfo.lastInternalAddr), o)} oldalloc(o) ==> select(@H(accountInfo.lastInternalAddr), o) == select(old(@H(accountInfo.lastInternalAddr)), o))
+//@       && (forall o Int :: {select(@H(BlockStamp.Height), o)} oldalloc(o) ==> select(@H(BlockStamp.Height), o) == select(old(@H(BlockStamp.Height)), o))
+//@       && @H(atomic.Bool.v) == old(@H(atomic.Bool.v))
+//@       && (forall o Int :: {select(@H(Manager.masterKeyPub), o)} oldalloc(o) ==> select(@H(Manager.masterKeyPub), o) == select(old(@H(Manager.masterKeyPub)), o) && select(@H(Manager.masterKeyPriv), o) == select(old(@H(Manager.masterKeyPriv)), o))
 //@   loopinv no_new_fault: wfault ==> old(wfault)
 
 // explicit entries only attach a replay scenario; the fault-propagation
